@@ -74,13 +74,6 @@ pub fn eval(c: &Case) -> Eval {
     feed(c.kind, &mut b, &c.pb, &c.items)?;
     let va = a.views();
     let vb = b.views();
-    // f32 SuperMinHash: r + j can round up to j + 1; cases whose final sketch shows such a value are not asserted (see DESIGN 5/C04)
-    if c.kind == Kind::SmhF32 {
-        let int_valued = |v: &Views| v.get("float").unwrap().iter().any(|b| { let x = f32::from_bits(*b as u32); x.fract() == 0.0 });
-        if int_valued(&va) || int_valued(&vb) {
-            return Ok(Report::new(false).excluded("f32-superminhash-integer-valued-register"));
-        }
-    }
     if let Some(d) = sketch_views(&va).first_diff(&sketch_views(&vb)) {
         return Err(Fail::new(format!("{:?} m={} over {} distinct items: two presentations of the same set give different sketches: {}", c.kind, c.m, c.items.len(), d)));
     }
@@ -162,6 +155,200 @@ pub fn eval_tie(c: &TieCase) -> Eval {
     Ok(Report::new(checked > 0).class(format!("{:?}", c.kind)).class_if(checked > 0, "equal-r-pair-found").class_if(checked == 0, "no-equal-r-pair-in-window"))
 }
 
+/// Tie hunting by sorting (public API only): with one position, sketching {x, y} tells which of the two items wins, i.e. it is a
+/// comparison in the implementation's own order of per-item values. Sorting a block of items with that comparison makes
+/// the closest pairs adjacent; every adjacent pair is then presented in both orders. A sketcher that (wrongly) lets two
+/// distinct items tie -- because it keeps fewer bits than it draws, say -- is order dependent exactly on those pairs.
+#[derive(Clone, Debug, Serialize, Deserialize)]
+pub struct HuntCase {
+    pub kind: Kind,
+    pub m: usize,
+    pub base: u64,
+    pub n: u32,
+}
+
+pub fn eval_hunt(c: &HuntCase) -> Eval {
+    let ss = SsParams { b: F(1.001), a: F(20.0), q: 100 };
+    let mut sk = make(c.kind, c.m, &ss);
+    // winner at position 0 when x is inserted first
+    let mut first_wins = |x: u64, y: u64| -> bool {
+        sk.reinit();
+        sk.sketch(x);
+        sk.sketch(y);
+        if c.kind.is_dens() {
+            sk.finish();
+        }
+        let v = sk.views();
+        let h = v.get("u64").unwrap()[0];
+        h == sk.hash_of(x)
+    };
+    let mut items: Vec<u64> = (0..c.n as u64).map(|i| splitmix64(c.base.wrapping_add(i))).collect();
+    items.sort_unstable();
+    items.dedup();
+    // merge sort driven by the sketcher's own comparison (an inconsistent comparison cannot make it loop)
+    let mut buf = items.clone();
+    let mut width = 1;
+    let n = items.len();
+    while width < n {
+        let mut i = 0;
+        while i < n {
+            let mid = (i + width).min(n);
+            let hi = (i + 2 * width).min(n);
+            let (mut a, mut b, mut k) = (i, mid, i);
+            while a < mid && b < hi {
+                if first_wins(items[a], items[b]) {
+                    buf[k] = items[a];
+                    a += 1;
+                } else {
+                    buf[k] = items[b];
+                    b += 1;
+                }
+                k += 1;
+            }
+            while a < mid {
+                buf[k] = items[a];
+                a += 1;
+                k += 1;
+            }
+            while b < hi {
+                buf[k] = items[b];
+                b += 1;
+                k += 1;
+            }
+            i += 2 * width;
+        }
+        std::mem::swap(&mut items, &mut buf);
+        width *= 2;
+    }
+    // adjacent pairs: both orders must give the same sketch
+    let mut a = make(c.kind, c.m, &ss);
+    let mut b = make(c.kind, c.m, &ss);
+    for w in items.windows(2) {
+        a.reinit();
+        b.reinit();
+        a.sketch(w[0]);
+        a.sketch(w[1]);
+        b.sketch(w[1]);
+        b.sketch(w[0]);
+        if c.kind.is_dens() {
+            a.finish();
+            b.finish();
+        }
+        if let Some(d) = sketch_views(&a.views()).first_diff(&sketch_views(&b.views())) {
+            return Err(Fail::new(format!("{:?} m={}: the set {{{}, {}}} (neighbours in the sketcher's own order of item values, found by sorting {} items with two-item sketches) gives different sketches in the two insertion orders: {}", c.kind, c.m, w[0], w[1], n, d)));
+        }
+    }
+    Ok(Report::new(n >= 2).class(format!("{:?}", c.kind)).class(format!("sorted-items<=2^{}", (n as f64).log2().ceil() as u32)))
+}
+
+fn hunt_strategy(n: u32) -> impl Strategy<Value = HuntCase> {
+    (prop::sample::select(vec![Kind::Smh2U64, Kind::Smh2U64NoHash, Kind::Smh2U32, Kind::OptF64, Kind::RevF64, Kind::OptF32]), prop::sample::select(vec![1usize, 1, 2]), any::<u64>()).prop_map(move |(kind, m, base)| {
+        // one position makes the comparison total; with 2 positions the comparison is still well defined at position 0
+        HuntCase { kind, m, base, n }
+    })
+}
+
+/// Distinct items must not alias: every sketcher derives all randomness of an item from its hash value, so two items with
+/// different hash values give different single-item sketches (up to a 2^-64-like coincidence). Structured labels are used:
+/// small integers, their byte-swapped forms (hash values 0, 1, 2, ... under the no-op hasher), all-ones and neighbours.
+#[derive(Clone, Debug, Serialize, Deserialize)]
+pub struct AliasCase {
+    pub kind: Kind,
+    pub m: usize,
+    pub base: u64,
+}
+
+pub fn eval_alias(c: &AliasCase) -> Eval {
+    let ss = SsParams::documented(1.001, c.m, 1.0e6, 1.0e-6);
+    let mut labels: Vec<u64> = vec![];
+    for i in 0..12u64 {
+        labels.push(i);
+        labels.push(i.swap_bytes());
+        labels.push(u64::MAX - i);
+        labels.push((u64::MAX - i).swap_bytes());
+        labels.push(c.base.wrapping_add(i));
+        labels.push(c.base ^ (1u64 << (i * 5)));
+    }
+    labels.sort_unstable();
+    labels.dedup();
+    let mut sk = make(c.kind, c.m, &ss);
+    let mut seen: std::collections::HashMap<Vec<u64>, (u64, u64)> = std::collections::HashMap::new();
+    for x in &labels {
+        sk.reinit();
+        sk.sketch(*x);
+        if c.kind.is_dens() {
+            sk.finish();
+        }
+        let v = sketch_views(&sk.views());
+        let flat: Vec<u64> = v.v.iter().flat_map(|p| p.1.iter().cloned()).collect();
+        let h = sk.hash_of(*x);
+        if let Some((y, hy)) = seen.get(&flat) {
+            ensure!(*hy == h, "{:?} m={}: the single-item sketches of items {} (hash {:#x}) and {} (hash {:#x}) are identical although their hash values differ", c.kind, c.m, y, hy, x, h);
+        } else {
+            seen.insert(flat, (*x, h));
+        }
+    }
+    Ok(Report::new(true).class(format!("{:?}", c.kind)))
+}
+
+fn alias_strategy() -> impl Strategy<Value = AliasCase> {
+    (kind_strategy(), prop::sample::select(vec![4usize, 8, 16, 33]), any::<u64>()).prop_map(|(kind, m, base)| AliasCase { kind, m, base })
+}
+
+/// long streams and very large sketches for the SuperMinHash family (per-call counters and markers must not wrap; level
+/// bookkeeping must survive sketch sizes beyond 2^16)
+#[derive(Clone, Debug, Serialize, Deserialize)]
+pub struct LongCase {
+    pub kind: Kind,
+    pub m: usize,
+    pub n: u32,
+    pub seed: u64,
+}
+
+pub fn eval_long(c: &LongCase) -> Eval {
+    let ss = SsParams::documented(1.001, c.m, 1.0e6, 1.0e-6);
+    let items: Vec<u64> = (0..c.n as u64).map(|i| splitmix64(c.seed.wrapping_add(i))).collect();
+    let mut a = make(c.kind, c.m, &ss);
+    for x in &items {
+        a.sketch(*x);
+    }
+    // second presentation: another order (stride permutation), the first 2000 items streamed twice, chunks through sketch_slice
+    let n = items.len();
+    let stride = 7919 % n.max(2) | 1;
+    let mut perm: Vec<u64> = Vec::with_capacity(n + 2000);
+    let mut i = 0usize;
+    let mut step = stride;
+    while gcd(step, n) != 1 {
+        step += 2;
+    }
+    for _ in 0..n {
+        perm.push(items[i]);
+        i = (i + step) % n;
+    }
+    perm.extend_from_slice(&items[..n.min(2000)]);
+    let mut b = make(c.kind, c.m, &ss);
+    for chunk in perm.chunks(30_000) {
+        ensure!(b.slice(chunk), "sketch_slice refused");
+    }
+    if let Some(d) = sketch_views(&a.views()).first_diff(&sketch_views(&b.views())) {
+        return Err(Fail::new(format!("{:?} m={} over {} distinct items ({} calls): two presentations of the same set give different sketches: {}", c.kind, c.m, n, perm.len(), d)));
+    }
+    Ok(Report::new(true).class(format!("{:?}", c.kind)).class_if(c.m > 65536, "m>65536").class_if(perm.len() > 65536, "calls>65536"))
+}
+
+fn gcd(a: usize, b: usize) -> usize {
+    if b == 0 {
+        a
+    } else {
+        gcd(b, a % b)
+    }
+}
+
+fn long_strategy() -> impl Strategy<Value = LongCase> {
+    (prop::sample::select(vec![Kind::SmhF64, Kind::SmhF32, Kind::SmhF64NoHash, Kind::Smh2U64, Kind::Smh2U32, Kind::SetU16, Kind::SetU32]), prop_oneof![1 => 2usize..64, 2 => 20_000usize..110_000], 66_000u32..140_000, any::<u64>())
+        .prop_map(|(kind, m, n, seed)| LongCase { kind, m: if kind.is_set() { m.min(4096) } else { m }, n, seed })
+}
+
 fn tie_strategy(window: u32) -> impl Strategy<Value = TieCase> {
     (prop::sample::select(vec![Kind::OptF32, Kind::RevF32, Kind::OptF64, Kind::RevF64]), any::<u64>(), 0u8..6).prop_map(move |(kind, base, fillers)| TieCase { kind, base, window, fillers })
 }
@@ -170,18 +357,32 @@ pub fn run(ctx: &Ctx) {
     ctx.set_rule("proptest generates (sketcher kind among SuperMinHash f64/f32/NoHash, SuperMinHash2 u64/u64-NoHash/u32-XxHash32, SetSketch u16/u32, OptDens f64/f32, RevOptDens f64/f32; size m; valid SetSketch parameters; \
         a set of distinct u64 items with size strata n<=8m / n~3 m ln m / up to the tier maximum) and two presentations (copies per item, permutation, chunking, slice vs item-wise calls; densified sketchers: item-wise + end_sketch vs one sketch_slice). \
         Oracle: all sketch views bit-identical between the two presentations; for SuperMinHash2 and the u64 view of the densified sketchers every position is the hasher's value of a streamed item (recomputed independently). \
-        Non-trivial = >= 2 distinct items and the two streams differ. Distinct = distinct serialised case.");
-    ctx.assume("SuperMinHash<f32>: a case whose final sketch contains an integer-valued register (r + j rounded up to j + 1 in f32) is not asserted and counted under excluded");
+        Non-trivial = >= 2 distinct items and the two streams differ. Distinct = distinct serialised case. Two targeted generators search for ties between distinct items through the public API only: (dens-equal-r) per-item values read from one-bin sketches, (tie-hunt) 2^18 (quick) / 2^20 (thorough) items sorted by the sketcher's own two-item comparison, every adjacent pair presented in both orders. Two more sub-checks: (distinct-items) structured labels (small integers, byte-swapped forms, all-ones and neighbours, also under the no-op hasher) must give pairwise different single-item sketches whenever their hash values differ; (long-streams) 66 000 .. 140 000 calls on one instance and sketch sizes up to 110 000, two presentations.");
     ctx.assume("SetSketch bookkeeping counters (get_low_sketch, get_nb_overflow) are not part of the sketch and are not compared here (they count events, not items)");
     super::run_fixed_tier(ctx, replay);
     let (cases, max_m, max_n) = ctx.tier.pick((160_000, 512, 2000), (3_000_000, 4096, 20000));
     ctx.drive("presentations", cases, 16, 1500, || strategy(max_m, max_n), eval);
     let (tcases, window) = ctx.tier.pick((64, 40_000), (1600, 120_000));
     ctx.drive("dens-equal-r", tcases, 16, 40, || tie_strategy(window), eval_tie);
+    let cases = ctx.tier.pick(600, 12_000);
+    ctx.drive("distinct-items", cases, 16, 50, alias_strategy, eval_alias);
+    let cases = ctx.tier.pick(32, 480);
+    ctx.drive("long-streams", cases, 16, 4, long_strategy, eval_long);
+    let (hcases, n) = ctx.tier.pick((32, 1u32 << 18), (320, 1u32 << 20));
+    ctx.drive("tie-hunt", hcases, 16, 8, || hunt_strategy(n), eval_hunt);
 }
 
 pub fn replay(ctx: &Ctx, sub: &str, case: &Value) -> Result<(), String> {
-    if sub == "dens-equal-r" {
+    if sub == "distinct-items" {
+        let c: AliasCase = parse_case(case)?;
+        ctx.run_fixed(sub, &c, eval_alias);
+    } else if sub == "long-streams" {
+        let c: LongCase = parse_case(case)?;
+        ctx.run_fixed(sub, &c, eval_long);
+    } else if sub == "tie-hunt" {
+        let c: HuntCase = parse_case(case)?;
+        ctx.run_fixed(sub, &c, eval_hunt);
+    } else if sub == "dens-equal-r" {
         let c: TieCase = parse_case(case)?;
         ctx.run_fixed(sub, &c, eval_tie);
     } else {
